@@ -304,9 +304,10 @@ def handleFunctionDef (c : Ctx) (s : State) (n : Name) (async : Bool) (decos : L
     (doc : Option (List Char)) : State :=
   let fl := decoFlags c.inClass n decos
   if fl.isProperty then
-    -- `_handlePropertyDef`: `addAttribute(name=node.name, kind=PROPERTY)`; `raise SkipNode` (no `_pop`)
+    -- `_handlePropertyDef`: `addAttribute(name=node.name, kind=PROPERTY)`, then `self.builder.currentAttr = None`
+    -- (since fcaa577; `addAttribute` had left it on the property) and `raise SkipNode` (no `_pop`)
     let attr : Member := { name := n, cls := .attribute, kind := .property, doc := doc.map cleandoc }
-    { contents := put s.contents attr, cur := some n }
+    { contents := put s.contents attr, cur := none }
   else
     let existing := lookup s.contents fl.funcName
     let reuse := match existing with
@@ -606,8 +607,7 @@ end PySem
 that defined `name` as a plain method is the one allowed rebinding), decorators of a `def` are bare
 `classmethod` / `staticmethod` / `property` (in a class only, at most one of them per `def`), identity
 decorators defined in the package whose name does not end in `property`/`Property`, or non-name
-expressions; no `@x.setter` / `@x.deleter` / `@overload`; no bare annotation; no string statement while
-`currentAttr` is a property; `else`/`finally` parts bind nothing; an assigned name of a class does not
+expressions; no `@x.setter` / `@x.deleter` / `@overload`; no bare annotation; `else`/`finally` parts bind nothing; an assigned name of a class does not
 shadow an inherited method or nested class; the external base names reachable from a class are classified
 alike by `_STD_LIB_EXCEPTIONS` and by `builtins`. -/
 namespace Subset
@@ -653,24 +653,22 @@ def basesOk (c : Ctx) (bases : List Base) : Bool :=
 structure Seen where
   names : List Name := []       -- names bound so far, in binding order
   plain : List Name := []       -- bound by a `def` of a class without descriptor decorator, not wrapped yet
-  curProp : Bool := false       -- `currentAttr` is a property
   deriving Repr
 
 mutual
 def checkStmt (c : Ctx) (sn : Seen) : Stmt → Option Seen
   | .classDef n bases decos _ _ =>
     if sn.names.contains n || !decos.all transparent || !basesOk c bases then none
-    else some { names := sn.names ++ [n], plain := sn.plain, curProp := false }
+    else some { names := sn.names ++ [n], plain := sn.plain }
   | .funcDef n _ decos _ =>
     if sn.names.contains n || !decosOk c.inClass decos then none
     else some { names := sn.names ++ [n],
-                plain := if c.inClass && (descs decos).isEmpty then sn.plain ++ [n] else sn.plain,
-                curProp := (descs decos).contains .property }
+                plain := if c.inClass && (descs decos).isEmpty then sn.plain ++ [n] else sn.plain }
   | .assign n _ _ =>
     if sn.names.contains n || (c.inClass && c.inheritedNonAttr.contains n) then none
-    else some { names := sn.names ++ [n], plain := sn.plain, curProp := false }
+    else some { names := sn.names ++ [n], plain := sn.plain }
   | .annOnly _ _ => none
-  | .attrDoc _ => if sn.curProp then none else some sn
+  | .attrDoc _ => some sn
   | .block _ body tail => if tail.all inert then checkList c sn body else none
   | .ifMain _ => some sn
   | .oldStyle n _ =>
